@@ -217,6 +217,12 @@ class BaseSection(base.Sectionable):
             return
 
         term = terminology.load(url)
+        if term is None:
+            # The referenced file could not be loaded or parsed:
+            # keep the reference, there is nothing to resolve.
+            self._include = new_value
+            return
+
         new_section = term.get_section_by_path(
             path) if path is not None else term.sections[0]
 
